@@ -90,7 +90,14 @@ Outcome run_plumbing(const Plan & plan, const RunCtx & ctx)
       if (c07 && used.toall != ref->toall) out.fail("C07", "toallevents-differs", "toallevents-differs plumbing", what + ": toallevents differs between the reused block and a new one");
       if (used.has_first) {
         std::string why = malformed_reason(used.first_ev, l.cfg.nuc);
-        if (c04 && !why.empty()) out.fail("C04", "malformed-event", why + " nuclide=" + l.cfg.nuc + " plumbing-first", what + ": event of the initialise-and-generate call: " + why + ": " + used.first.brief());
+        if (c04 && !why.empty()) {
+          // same signature as the generator suites (a finding is the same finding through either entry point)
+          std::string species;
+          for (auto & q : used.first_ev.get_particles())
+            if (!std::isfinite(q.get_px() + q.get_py() + q.get_pz()) || !std::isfinite(q.get_time())) { species = " species=" + std::to_string((int)q.get_code()); break; }
+          std::string cls = l.cfg.cat == 2 ? "bkg" : "dbd-m" + std::to_string(l.cfg.mode) + (l.cfg.level > 0 ? "-exc" : "-gs") + (l.cfg.has_window() ? "-win" : "");
+          out.fail("C04", "malformed-event", why + " nuclide=" + l.cfg.nuc + " cfg=" + cls + species, what + " [plumbing]: event of the initialise-and-generate call: " + why + ": " + used.first.brief());
+        }
         if (c07 && ref->has_first && !(used.first == ref->first)) out.fail("C07", "event-differs", "event-differs plumbing nuclide=" + l.cfg.nuc, what + ": first event differs from a new block's: " + first_difference(used.first, ref->first));
       }
     } else if (op.k == "pshoot") {
